@@ -23,6 +23,14 @@ CLAIMED = {
         "from the loaded unit, and every core field read by the linker is validated. Histories of edits are not executed.",
    technique="static analysis: table agreement + type reachability (MIR ADT facts) + must-validate-before-use on resolved deserialisation sites + loop-shape/taint rule",
    ref="DESIGN.md section 4, C15"),
+ "C16": dict(
+   text="Static decision of the isolation and coherence gates: every user-written qualified path is import-checked where it is "
+        "converted (resolved conversion sites), graph errors (cycle, missing import, name mismatch, mixed directory) return Err, the "
+        "impl table is written only behind the orphan and duplicate tests, project-wide merges test for cross-package duplicates "
+        "first, and a package's type-check sees only the environments of its own imports. Necessary conditions; sufficiency over "
+        "all package graphs is not decided.",
+   technique="static analysis: who-may-call on resolved callees (MIR) + must-check-after-conversion + guard-dominates-insert + loop provenance",
+   ref="DESIGN.md section 4, C16"),
  "C13": dict(
    text="Static decision that no nondeterminism source can reach compiler output: every resolved iteration over a std/im "
         "HashMap/HashSet is followed to its sink (order-free / sorted / ordered=violation), read_dir listings and "
